@@ -438,6 +438,12 @@ def generate_bufr_message(decoder, s, info_only=False, continue_on_error=False, 
             else:
                 if (bufr_message.data_category.value == DATA_CATEGORY_DEFINE_BUFR_TABLES
                         and bufr_message.n_subsets.value > 0):
+                    if not matched:
+                        # Rejected by the filter, hence only its metadata is decoded so far. The
+                        # tables it defines still govern the messages that follow.
+                        bufr_message = decoder.process(
+                            s[idx_start:], start_signature=None, info_only=False, *args, **kwargs
+                        )
                     _, b_entries, d_entries = BufrTableDefinitionProcessor().process(bufr_message)
                     TableGroupCacheManager.invalidate()
                     TableGroupCacheManager.add_extra_entries(b_entries, d_entries)
